@@ -8,16 +8,16 @@
 #include <limits.h>
 
 static CBlockIndex g_base;
+static PhantomStore<Chainstate> cs_store; static PhantomStore<ChainstateManager> cm_store;
 // SnapshotBase() falls back to the block index lookup when the cached pointer is not set yet; the index always contains the
 // snapshot base block (ActivateSnapshot refuses otherwise), so the lookup stub answers with it.
 CBlockIndex* node::BlockManager::LookupBlockIndex(const uint256&) { return &g_base; }
 
 extern "C" void h_prunerange()
 {
-    static PhantomStore<Chainstate> cs_store; static PhantomStore<ChainstateManager> cm_store;
     Chainstate& cs = cs_store.obj(); ChainstateManager& cm = cm_store.obj();
     new (&cs.m_chain) CChain();
-    void** slot_blockman = ref_slot_after(cs.m_last_script_check_reason_logged);
+    void** slot_blockman = ref_slot_after(cs, cs.m_last_script_check_reason_logged);
     slot_blockman[0] = &cm.m_blockman; slot_blockman[1] = &cm;
     VASSERT(&cs.m_chainman == &cm && &cs.m_blockman == &cm.m_blockman, "phantom reference members wired");
 
